@@ -84,7 +84,7 @@ __CPROVER_ensures(__CPROVER_return_value == AWS_OP_SUCCESS)
 size_t aws_cache_base_default_get_element_count(const struct aws_cache *cache)
 __CPROVER_requires(cache == g_C && g_T == &g_C->table)
 __CPROVER_assigns()
-__CPROVER_ensures(__CPROVER_return_value == g_a.n + g_a.hidden)
+__CPROVER_ensures(__CPROVER_return_value == g_m.count)
 ;
 /* BOUNDED (whole list materialised, see aws_linked_hash_table_clear) */
 void aws_cache_base_default_clear(struct aws_cache *cache)
